@@ -282,6 +282,26 @@ fn check_dur_to_interval(rep: &mut Report, ctx: &mut Ctx, d: i128) {
 
 fn check_log_interval(rep: &mut Report, n: i8) {
     rep.ev("log_interval");
+    // 2^n seconds is an f64 for every i8 (2^-128 .. 2^127): exact, and never a panic
+    match guarded(|| (Interval::from_log_2(n).seconds(), Interval::from_log_2(n).as_log_2())) {
+        Ok((s, l)) => {
+            let exact_bits = ((1023i64 + n as i64) as u64) << 52;
+            if s.to_bits() != exact_bits || l != n {
+                viol(rep, "log-interval", "seconds", format!("n={n}: seconds() = {s:e} (exact 2^{n}), as_log_2() = {l}"), json!({"n": n}));
+            }
+        }
+        Err(p) => viol(rep, "log-interval", "panic", format!("n={n}: seconds(): {}", p.message), json!({"n": n})),
+    }
+    if (n as i32) < -41 {
+        // not a whole number of units of 2^-32 ns: whichever way it is rounded, it is within
+        // one unit of 1953125 * 2^(n+41)
+        if let Ok(u) = guarded(|| dur_units(Interval::from_log_2(n).as_duration())) {
+            let exact_f = 1953125.0f64 * 2f64.powi(n as i32 + 41);
+            if (u as f64 - exact_f).abs() > 1.0 {
+                viol(rep, "log-interval", "value", format!("n={n}: as_duration() = {u} units of 2^-32 ns, 2^{n} s is {exact_f} units"), json!({"n": n}));
+            }
+        }
+    }
     // 2^n s in units = 1953125 * 2^(n+41)
     let sh = n as i32 + 41;
     let exact: Option<i128> = if sh >= 0 && sh <= 105 { Some(1953125i128 << sh) } else { None };
